@@ -1,5 +1,7 @@
 package main
 
+import "fmt"
+
 // Fixed reproducers, run before the generated histories.
 
 type cstep struct {
@@ -37,7 +39,7 @@ func (c cstep) gc(ids ...int64) cstep {
 	return c
 }
 
-func corpus() []ccase {
+func corpus(thorough bool) []ccase {
 	base := caseCfg{HonorTS: true, TimeoutS: 10}
 	v2 := base
 	v2.V2 = true
@@ -56,7 +58,7 @@ func corpus() []ccase {
 	ldropTrack.TrackTS = true
 	pool := []string{"m0", "m1", "m2", `m0{a="1"}`, `m1{a="1",b="x"}`, `m1{b="x",a="1"}`, `m1{a="1",b="y"}`}
 	t1 := baseTime + 15000
-	return []ccase{
+	cs := []ccase{
 		{"staleness-basic", base, pool, []cstep{body(1, en(0, 1), en(1, 2)), body(2, en(0, 3)), fail(3), body(4, en(0, 4), en(2, 5)), gone()}},
 		{"staleness-basic-v2", v2, pool, []cstep{body(1, en(0, 1), en(1, 2)), body(2, en(0, 3)), fail(3), body(4, en(0, 4), en(2, 5)), gone()}},
 		// the scrape at k=2 exceeds sample_limit=2 after m0 and m1 were appended: they get no marker
@@ -80,4 +82,19 @@ func corpus() []ccase {
 		{"dup-after-rejected", base, pool, []cstep{body(1, ent(0, 1, 5), en(0, 2)), body(2, ent(0, 1, 5), en(0, 2), ent(1, 3, farTime), en(1, 4)), body(3, ent(0, 1, 5), en(0, 2))}},
 		{"empty-and-comment-bodies", extra, pool, []cstep{body(1, en(0, 1), en(1, 2)), rawBody(2, "# nothing\n"), body(3, en(0, 1)), body(4), body(5, en(0, 1)), fail(6), gone()}},
 	}
+	if thorough {
+		// scrapeCache.iterDone's forced flush: a failing scrape grows the cache beyond
+		// 2*successfulCount+1000 entries, so entries not seen in it are deleted although the scrape
+		// failed; the two series of scrape 1 are "new" again in scrape 3 (scrape_series_added = 2)
+		big := []string{"m0", "m1"}
+		var many []entry
+		for i := 0; i < 1010; i++ {
+			big = append(big, fmt.Sprintf(`m2{a="%d"}`, i))
+			many = append(many, en(2+i, int64(i%100)))
+		}
+		cs = append(cs, ccase{"forced-cache-flush", base, big, []cstep{body(1, en(0, 1), en(1, 2)), badBody(2, many...), body(3, en(0, 3), en(1, 4)), body(4, en(0, 5))}})
+		// the same without crossing the threshold: no flush, the series stay cached (series_added = 0)
+		cs = append(cs, ccase{"no-forced-cache-flush", base, big, []cstep{body(1, en(0, 1), en(1, 2)), badBody(2, many[:900]...), body(3, en(0, 3), en(1, 4)), body(4, en(0, 5))}})
+	}
+	return cs
 }
